@@ -5,6 +5,7 @@
 -/
 import Jesse.Routing
 import Proofs.Lemmas.Num
+import Proofs.Lemmas.Frame
 
 namespace C10
 open Jesse Jesse.Gen Jesse.Routing
@@ -176,5 +177,153 @@ example : Near (100 + 15/1000) 100 ∧ ¬ Near (100 + 16/1000) 100 := by decide 
 example : (match reducePositionAt 1 (10016/100) 100 .long with
     | .ok a => decide (view a = ⟨.limit, 1, 10016/100, .sell, true⟩) | _ => false) = true := by
   decide +kernel
+
+end C10
+
+/-! ### no stale exit survives a modification (engine model, one reconciliation)
+
+When the strategy layer handles a modified stop-loss / take-profit declaration (`resubmitExits`, the exit part of
+`_detect_and_handle_entry_and_exit_modifications`), every exit order that was active and tagged with that kind BEFORE
+the call is no longer active after it — whatever the new rows are and however many of them are accepted or rejected. -/
+namespace C10
+open Jesse Jesse.Eng Jesse.Gen Jesse.Acc FrameLemmas
+
+section reconcile
+variable {M : Type} [Inhabited M]
+
+/-- cancelling an order that exists leaves it non-active -/
+theorem cancelOrder_not_active (e : Engine M) (id : Nat) (hid : id < e.w.orders.length) :
+    (orderOf (cancelOrder e id) id).status ≠ .active := by
+  unfold cancelOrder
+  split
+  · rename_i hact
+    show ((Acc.cancel e.w id).orders.getD id default).status ≠ .active
+    unfold orderOf at hact
+    unfold Acc.cancel
+    rw [List.getElem?_eq_getElem hid]
+    have hst : (e.w.orders[id]).status = .active := by
+      rw [List.getD_eq_getElem?_getD, List.getElem?_eq_getElem hid] at hact; simpa using hact
+    have hne : ¬ (e.w.orders[id]).status ≠ .active := by simp [hst]
+    simp only [hne, if_false]
+    have key : ((Acc.setStatus e.w id .canceled).orders.getD id default).status = .canceled := by
+      unfold Acc.setStatus
+      simp only []
+      have : (Acc.upd e.w.orders id (fun o => { o with status := OrderStatus.canceled })).getD id default
+          = { e.w.orders.getD id default with status := OrderStatus.canceled } := by
+        clear hact hst hne
+        generalize e.w.orders = os at hid
+        induction os generalizing id with
+        | nil => simp at hid
+        | cons x xs ih =>
+          cases id with
+          | zero => simp [Acc.upd]
+          | succ k => simp only [Acc.upd, List.getD_cons_succ]; exact ih k (by simpa using hid)
+      rw [this]
+    -- the bookkeeping after the status change does not touch the order table
+    split
+    · split
+      · rw [key]; decide
+      · split <;> (show ((Acc.setStatus e.w id .canceled).orders.getD id default).status ≠ _; rw [key]; decide)
+    · split
+      · have := (same_releaseSell (Acc.setStatus e.w id .canceled) e.w.orders[id]).1
+        show ((Acc.releaseSell (Acc.setStatus e.w id .canceled) e.w.orders[id]).orders.getD id default).status ≠ _
+        rw [this, key]; decide
+      · rename_i hb
+        first
+          | (have := (same_releaseSell (Acc.setStatus e.w id .canceled) e.w.orders[id]).1
+             show ((Acc.releaseSell (Acc.setStatus e.w id .canceled) e.w.orders[id]).orders.getD id default).status ≠ _
+             rw [this, key]; decide)
+          | (show ((Acc.setStatus e.w id .canceled).orders.getD id default).status ≠ _; rw [key]; decide)
+  · rename_i hna; exact hna
+
+/-- a non-active existing order stays non-active through any `EExt` step -/
+theorem stays_not_active {e e' : Engine M} (h : EExt e e') (id : Nat) (hid : id < e.w.orders.length)
+    (hna : (orderOf e id).status ≠ .active) : (orderOf e' id).status ≠ .active :=
+  fun ha => hna (h.noRevive id hid ha)
+
+/-- NO STALE EXIT SURVIVES A MODIFICATION -/
+theorem resubmit_leaves_no_previous_exit (e : Engine M) (r : Nat) (isStop : Bool) (rows : Rows) (id : Nat)
+    (hid : id < e.w.orders.length)
+    (hmem : id ∈ activeExitOrders e (routeOf e r).sym)
+    (hvia : e.via.getD id none = some (if isStop then Via.stopLoss else Via.takeProfit)) :
+    (orderOf (resubmitExits e r isStop rows) id).status ≠ .active := by
+  unfold resubmitExits
+  dsimp only
+  -- phase 1: the cancellation loop
+  have phase1 : ∀ (l : List Nat) (e0 : Engine M), e0.via = e.via → e.w.orders.length ≤ e0.w.orders.length →
+      (id ∈ l ∨ (orderOf e0 id).status ≠ .active) →
+      (orderOf (l.foldl (fun (e : Engine M) id =>
+        if (e.via.getD id none) = some (if isStop then Via.stopLoss else Via.takeProfit) ∧ (orderOf e id).status = .active
+        then cancelOrder e id else e) e0) id).status ≠ .active := by
+    intro l
+    induction l with
+    | nil =>
+      intro e0 _ _ h
+      rcases h with h | h
+      · cases h
+      · exact h
+    | cons x xs ih =>
+      intro e0 hv hl h
+      simp only [List.foldl_cons]
+      have hid0 : id < e0.w.orders.length := by omega
+      by_cases hc : (e0.via.getD x none) = some (if isStop then Via.stopLoss else Via.takeProfit) ∧ (orderOf e0 x).status = .active
+      · simp only [hc, and_self, if_true]
+        have hext := cancelOrder_ext e0 x
+        have hv' : (cancelOrder e0 x).via = e.via := by
+          unfold cancelOrder; split <;> exact hv
+        have hl' : e.w.orders.length ≤ (cancelOrder e0 x).w.orders.length := Nat.le_trans hl hext.len
+        apply ih _ hv' hl'
+        by_cases hx : x = id
+        · right; subst hx; exact cancelOrder_not_active e0 x hid0
+        · rcases h with h | h
+          · rcases List.mem_cons.mp h with h1 | h1
+            · exact absurd h1.symm hx
+            · exact Or.inl h1
+          · exact Or.inr (stays_not_active hext id hid0 h)
+      · simp only [hc, if_false]
+        apply ih _ hv hl
+        rcases h with h | h
+        · rcases List.mem_cons.mp h with h1 | h1
+          · -- this is `id` itself and the guard is false: its tag is right, so it is not active
+            subst h1
+            right
+            intro ha
+            apply hc
+            exact ⟨by rw [hv]; exact hvia, ha⟩
+          · exact Or.inl h1
+        · exact Or.inr h
+  have h1 := phase1 (activeExitOrders e (routeOf e r).sym) e rfl (Nat.le_refl _) (Or.inl hmem)
+  -- phase 2: the new submissions never revive an order
+  have hlen1 : e.w.orders.length ≤ ((activeExitOrders e (routeOf e r).sym).foldl (fun (e : Engine M) id =>
+        if (e.via.getD id none) = some (if isStop then Via.stopLoss else Via.takeProfit) ∧ (orderOf e id).status = .active
+        then cancelOrder e id else e) e).w.orders.length := by
+    have : EExt e ((activeExitOrders e (routeOf e r).sym).foldl (fun (e : Engine M) id =>
+        if (e.via.getD id none) = some (if isStop then Via.stopLoss else Via.takeProfit) ∧ (orderOf e id).status = .active
+        then cancelOrder e id else e) e) := by
+      apply foldl_ext
+      intro e' x
+      exact ext_ite (cancelOrder_ext _ _) (EExt.refl _)
+    exact this.len
+  revert h1 hlen1
+  generalize ((activeExitOrders e (routeOf e r).sym).foldl (fun (e : Engine M) id =>
+        if (e.via.getD id none) = some (if isStop then Via.stopLoss else Via.takeProfit) ∧ (orderOf e id).status = .active
+        then cancelOrder e id else e) e) = e1
+  intro h1 hlen1
+  have h2 : EExt e1 (rows.foldl (fun (e' : Engine M) row =>
+      if e'.err.isSome then e' else
+      if (posOf e' (routeOf e r).sym).qty = 0 then e' else
+      brokerSubmit e' (routeOf e r).sym (Jesse.Gen.reducePositionAt row.1
+        (if (if rows.length = 1 then some (priceOf e r) else none) = some row.2 then priceOf e' r else row.2) (priceOf e' r)
+        (posTypeOf e' (routeOf e r).sym)) (some (if isStop then Via.stopLoss else Via.takeProfit))) e1) := by
+    apply foldl_ext
+    intro e' row
+    split
+    · exact EExt.refl _
+    · split
+      · exact EExt.refl _
+      · exact brokerSubmit_ext _ _ _ _
+  exact stays_not_active h2 id (by omega) h1
+
+end reconcile
 
 end C10
